@@ -863,6 +863,8 @@ func VProgram(set string, i int) (bin []byte, params, results []byte, mem bool, 
 		ps = vT2Single(vOffsetsQuick)
 	case "T2r":
 		ps = vT2Reuse([]uint32{0, 0xffff, 0x80000000, 0xfffffff8})
+	case "T6":
+		ps = vT6
 	}
 	count = len(ps)
 	if i >= count {
